@@ -1530,3 +1530,15 @@ def _dumps(ex, args, kwargs, node):
 def _pwrite(ex, p, args, kwargs, node):
     _may_raise(ex, node, "OSError")
     return VInt(ex.st.fresh_const("written", L.Int))
+
+
+# "".join(chars): the string made of the given one-character strings (TB-py); a function of the list
+join_chars = z3.Function("join_chars", L.list_theory(StrSort, "Str").sort, StrSort)
+
+
+@meth("str", "join", tb="TB-py")
+def _str_join(ex, s, args, kwargs, node):
+    (xs,) = args
+    if not (s.const == "" and isinstance(xs, VList) and xs.et is TStr):
+        raise Unsupported("str.join of this shape")
+    return VStr(join_chars(xs.t))
